@@ -540,6 +540,13 @@ func VH_ClientSetters() {
 		s.recvErrAt = vChoose("recvfailat", 2)
 		s.recvErrno = []syscall.Errno{syscall.ENOBUFS, syscall.EBADF, syscall.ECONNREFUSED}[vChoose("recverrno", 3)]
 	}
+	pre := 0
+	if vParam("afterget", 0) != 0 {
+		// a status query first (the kernel answers with 32, 36, 40 or 44 bytes): what is sent afterwards
+		// does not depend on it
+		c.GetStatus()
+		pre = len(s.reqs)
+	}
 	switch vChoose("setter", 9) {
 	case 8:
 		// GetStatusAsync: AUDIT_GET, ACK requested only if asked for, the Send's sequence number returned
@@ -584,12 +591,12 @@ func VH_ClientSetters() {
 	case 7:
 		// GetStatus sends AUDIT_GET with REQUEST|ACK and no payload
 		c.GetStatus()
-		rq := s.reqs[0]
+		rq := s.reqs[pre]
 		vAssert(rq.typ == vUAPI_AUDIT_GET, "C16/get-request-type")
 		vAssert(rq.flags == vNLM_F_REQUEST|vNLM_F_ACK, "C16/get-request-flags")
 		vAssert(len(rq.data) == 0, "C16/get-request-payload")
 	}
-	vAssert(len(s.reqs) == 1, "C16/exactly-one-request")
+	vAssert(len(s.reqs) == pre+1, "C16/exactly-one-request")
 }
 
 // VH_Constants: exported numbers equal the UAPI header.
